@@ -187,29 +187,12 @@ func (v *collator_[V]) compareMaps(first ref.Value, second ref.Value) bool {
 		return false
 	}
 
-	// Compare the keys and values for the two Go maps.
-	var iterator = first.MapRange()
-	for iterator.Next() {
-		v.depth_++
-		var key = iterator.Key()
-		var firstValue = iterator.Value()
-		var secondValue = second.MapIndex(key)
-		if !secondValue.IsValid() {
-			// The second Go map has no key that is identical to this key, but
-			// it may have one that is equal to it (another pointer to an equal
-			// value, the same number in another integer type).  Only pairing
-			// the sorted keys can tell, which is what the ranking does.
-			v.depth_--
-			return v.rankMaps(first, second) == EqualRank
-		}
-		if !v.compareValues(firstValue, secondValue) {
-			// The values don't match.
-			v.depth_--
-			return false
-		}
-		v.depth_--
-	}
-	return true
+	// Compare the keys and values for the two Go maps.  Two keys may be equal
+	// without being identical (another pointer to an equal value, the same
+	// number in another numeric type), and one Go map may even hold two such
+	// keys, so looking the keys of one Go map up in the other cannot decide.
+	// Only pairing the sorted associations can, which is what the ranking does.
+	return v.rankMaps(first, second) == EqualRank
 }
 
 func (v *collator_[V]) compareIntrinsics(first, second ref.Value) bool {
